@@ -57,6 +57,46 @@ fn fit_json<T: HScalar, P: Prob<T>>(f: &FitOut<T, P>) -> Value {
 }
 
 /// run the operations; `out` collects one record per operation
+fn direct_svd_same<T: HScalar, P: Prob<T>>(
+    p: &P,
+    ctx: &Value,
+    u: Option<&nalgebra::DMatrix<T>>,
+    s: &DVector<T>,
+    vt: Option<&nalgebra::DMatrix<T>>,
+) -> Value {
+    use varpro::model::SeparableNonlinearModel;
+    let Ok(mut phi) = p.p_model().inner.eval() else {
+        return Value::Null;
+    };
+    let w: Option<DVector<T>> = ctx["build"]
+        .as_array()
+        .and_then(|ops| ops.iter().rev().find(|o| o[0] == "weights"))
+        .map(|o| vec_in::<T>(&o[1]));
+    if let Some(w) = w {
+        if w.len() != phi.nrows() {
+            return Value::Null;
+        }
+        for j in 0..phi.ncols() {
+            for i in 0..phi.nrows() {
+                phi[(i, j)] = w[i] * phi[(i, j)];
+            }
+        }
+    }
+    let d = phi.svd(true, true);
+    let bits = |m: &nalgebra::DMatrix<T>| m.iter().map(|v| v.to_hex()).collect::<Vec<_>>();
+    let same_s = d.singular_values.iter().map(|v| v.to_hex()).collect::<Vec<_>>()
+        == s.iter().map(|v| v.to_hex()).collect::<Vec<_>>();
+    let same_u = match (d.u.as_ref(), u) {
+        (Some(a), Some(b)) => a.shape() == b.shape() && bits(a) == bits(b),
+        _ => false,
+    };
+    let same_v = match (d.v_t.as_ref(), vt) {
+        (Some(a), Some(b)) => a.shape() == b.shape() && bits(a) == bits(b),
+        _ => false,
+    };
+    Value::Bool(same_s && same_u && same_v)
+}
+
 pub fn run_ops<T: HScalar, P: Prob<T>>(mut p: P, ops: &[Value], out: &mut Vec<Value>, ctx: &Value) {
     let mut i = 0;
     while i < ops.len() {
@@ -99,10 +139,16 @@ pub fn run_ops<T: HScalar, P: Prob<T>>(mut p: P, ops: &[Value], out: &mut Vec<Va
             "svd" => {
                 let v = match p.p_svd() {
                     None => Value::Null,
-                    Some((u, s, vt)) => json!({
+                    Some((u, s, vt)) => {
+                        // nalgebra called directly on W * Phi(alpha) (computed here from the model and the weights the case
+                        // supplied): are the cached factors bit for bit what the dependency returns for the true matrix?
+                        let direct = direct_svd_same::<T, P>(&p, ctx, u.as_ref(), &s, vt.as_ref());
+                        json!({
                         "u": opt(u.as_ref(), mat_out),
                         "s": vec_out(&s),
-                        "vt": opt(vt.as_ref(), mat_out)}),
+                        "vt": opt(vt.as_ref(), mat_out),
+                        "same_as_direct_nalgebra": direct})
+                    }
                 };
                 out.push(json!({"op": "svd", "v": v}));
             }
